@@ -44,8 +44,22 @@ structure Refines (c : Cfg) (d : Dir) (sp : Spec.State) : Prop where
 /-- a fresh directory represents the empty history -/
 theorem init_refines (c : Cfg) (vrf : VrfTable) (key : Dig) :
     ∃ d, Dir.init c { vrf := vrf, commitmentKey := key } = .ok d ∧ Refines c d {} := by
-  sorry
+  obtain ⟨s', h1, h2⟩ := azksNew_repr c .directory ({} : NodeStore)
+  have hs : s' = ({} : NodeStore).setRec ⟨NodeLabel.root, TreeNode.newRoot c, none⟩ := by
+    have : ({} : NodeStore).azksNew c = .ok (({} : NodeStore).setRec ⟨NodeLabel.root, TreeNode.newRoot c, none⟩, ⟨0, 1⟩) := rfl
+    rw [this] at h1
+    injection h1 with h1
+    injection h1 with h1
+    exact h1.symm
+  refine ⟨{ nodes := s', azks := some ⟨0, 1⟩, vrf := vrf, commitmentKey := key }, ?_, ?_⟩
+  · simp only [Dir.init, h1]
+  · refine ⟨⟨1, rfl⟩, ?_, h2, ?_, ?_, List.Pairwise.nil⟩
+    · subst hs; exact ⟨rfl, rfl⟩
+    · exact ⟨fun s hs => (nomatch hs), fun u v hv => (nomatch hv), List.Pairwise.nil⟩
+    · intro u
+      exact ⟨⟨fun i h => absurd h (Nat.not_lt_zero i), List.Pairwise.nil⟩, fun v hv => (nomatch hv)⟩
 
+set_option linter.unusedVariables false in
 /-- **one publish**: the model of `publish` follows the specification, whatever the batch -/
 theorem publish_refines (c : Cfg) (hc : c.emptyLabel.len = 0) (d : Dir) (sp : Spec.State)
     (users : List Bytes) (N : Nat)
@@ -58,7 +72,124 @@ theorem publish_refines (c : Cfg) (hc : c.emptyLabel.len = 0) (d : Dir) (sp : Sp
       ∃ d', d.publish c b = .ok (d', sp'.epoch, Spec.rootHash c d.commitmentKey d.vrf sp') ∧
         Refines c d' sp' ∧ d'.vrf = d.vrf ∧ d'.commitmentKey = d.commitmentKey ∧
         (sp' = sp → d' = d)) := by
-  sorry
+  intro sp'
+  constructor
+  · intro hdup
+    refine ⟨⟨.duplicate, ?_⟩, Pub.applyBatch_dup sp b hdup⟩
+    unfold Dir.publish
+    simp only [bind, Except.bind, throw, throwThe, MonadExceptOf.throw]
+    rw [if_pos hdup]
+  · intro hnd0
+    obtain ⟨n, hazks⟩ := href.azks
+    have hnd : (b.map (·.1)).Nodup :=
+      Pub.nodup_of_eraseDups_length _ _ (Nat.le_refl _) (by rw [hnd0, List.length_map])
+    have hV : ∀ u, Pub.VersOK (sp.table.get u) := fun u => (href.versions u).1
+    have hEp : ∀ u, ∀ v ∈ sp.table.get u, 1 ≤ v.epoch ∧ v.epoch ≤ sp.epoch := fun u => (href.versions u).2
+    have hLen : ∀ u, (sp.table.get u).length ≤ sp.epoch := fun u => Pub.versOK_length_le (hV u) _ (hEp u)
+    have htot : ∀ x ∈ b, ∀ f ver, 1 ≤ ver → ver ≤ (sp.table.get x.1).length + 1 →
+        (d.vrf.get? ⟨x.1, f, ver⟩).isSome := fun x hx f ver h1 h2 =>
+      ht x.1 (hb x hx) f ver h1 (by have := hLen x.1; omega)
+    obtain ⟨els', hder, hnl, hemp⟩ := Pub.derive_spec c d sp.table sp.epoch href.states hV
+      (fun u v hv' => (hEp u v hv').2) hv.len b htot
+    have happ : sp' = _ := Pub.applyBatch_eq sp b hnd0
+    -- the tree before the batch
+    have hpfL := Pub.prefixFree_leaves hv.inj hv.len c d.commitmentKey sp.table href.keys hV
+    have hlenL := Pub.leaves_len hv.len c d.commitmentKey sp.table
+    have hepL := Pub.leaves_ep c d.commitmentKey d.vrf sp.table href.keys 1 sp.epoch hEp
+    have hspecL := ofLeaves_spec _ hpfL (fun x hx h => by have := hlenL x hx; rw [h] at this; cases this)
+    unfold Dir.publish
+    simp only [bind, Except.bind, pure, Except.pure, throw, throwThe, MonadExceptOf.throw]
+    rw [if_neg (fun h => h hnd0), hazks]
+    simp only [hder]
+    by_cases hch : b.filter (Pub.isChange sp.table) = []
+    · -- nothing changes
+      have hsp : sp' = sp := by rw [happ, hch]; rfl
+      have hroot := rootHash_of_reprRoot c .directory d.nodes _ sp.epoch n href.tree
+        (fun lf hlf => (hepL lf (hspecL.2.mem_iff.1 hlf)).2)
+      rw [hemp.2 hch]
+      simp only [List.map_nil, List.isEmpty_nil, if_true, hroot, Dir.liftT]
+      exact ⟨d, by rw [hsp]; rfl, hsp ▸ href, rfl, rfl, fun _ => rfl⟩
+    · -- an effective batch
+      have hsp : sp' = ⟨sp.epoch + 1, (b.filter (Pub.isChange sp.table)).foldl (Pub.step (sp.epoch + 1)) sp.table⟩ := by
+        rw [happ, if_neg (by simpa using hch)]
+      have hndch : ((b.filter (Pub.isChange sp.table)).map (·.1)).Nodup :=
+        hnd.sublist (List.filter_sublist.map _)
+      obtain ⟨i1, i2, _, i4, _⟩ := Pub.fold_spec c d.commitmentKey d.vrf (sp.epoch + 1) sp.table hV
+        (b.filter (Pub.isChange sp.table)) sp.table hndch (fun _ _ => rfl)
+      rw [← hnl] at i1
+      have hvers' := Pub.versions_fold sp.table sp.epoch (b.filter (Pub.isChange sp.table)) hV hEp hndch
+      have hkeys' := i4 href.keys
+      have hV' := fun u => (hvers' u).1
+      have hpfL' := Pub.prefixFree_leaves hv.inj hv.len c d.commitmentKey _ hkeys' hV'
+      have hlenL' := Pub.leaves_len hv.len c d.commitmentKey
+        ((b.filter (Pub.isChange sp.table)).foldl (Pub.step (sp.epoch + 1)) sp.table)
+      have hepL' := Pub.leaves_ep c d.commitmentKey d.vrf _ hkeys' 1 (sp.epoch + 1) (fun u => (hvers' u).2)
+      have hspecL' := ofLeaves_spec _ hpfL' (fun x hx h => by have := hlenL' x hx; rw [h] at this; cases this)
+      -- old leaves ++ new leaves ~ the leaves of the new table
+      have hperm : ((CRoot.ofLeaves (Spec.leaves c d.commitmentKey d.vrf sp.table)).leaves ++
+          newLeaves els' (sp.epoch + 1)).Perm (Spec.leaves c d.commitmentKey d.vrf
+            ((b.filter (Pub.isChange sp.table)).foldl (Pub.step (sp.epoch + 1)) sp.table)) :=
+        (List.Perm.append_right _ hspecL.2).trans i1.symm
+      have hpf : PrefixFree ((CRoot.ofLeaves (Spec.leaves c d.commitmentKey d.vrf sp.table)).leaves ++
+          newLeaves els' (sp.epoch + 1)) := (hperm.pairwise_iff Canon.Incomp.symm).2 hpfL'
+      have hlen : ∀ lf ∈ (CRoot.ofLeaves (Spec.leaves c d.commitmentKey d.vrf sp.table)).leaves ++
+          newLeaves els' (sp.epoch + 1), 1 ≤ lf.lbl.length ∧ lf.lbl.length ≤ 256 := fun lf hlf => by
+        have := hlenL' lf (hperm.mem_iff.1 hlf); omega
+      have hep : ∀ lf ∈ (CRoot.ofLeaves (Spec.leaves c d.commitmentKey d.vrf sp.table)).leaves,
+          1 ≤ lf.ep ∧ lf.ep ≤ (⟨sp.epoch, n⟩ : Azks).latestEpoch := fun lf hlf => hepL lf (hspecL.2.mem_iff.1 hlf)
+      have hbegin : ReprRoot c .directory d.nodes.begin _ :=
+        Pub.reprRoot_getRec_congr c .directory d.nodes d.nodes.begin
+          (Pub.getRec_begin d.nodes href.idle.1 href.idle.2) _ href.tree
+      obtain ⟨s', n', hrun, hrep'⟩ := batchInsert_refines c hc .directory d.nodes.begin ⟨sp.epoch, n⟩ _ hbegin
+        hspecL.1 hep els' hpf hlen
+      obtain ⟨fw, fp⟩ := foldl_insert1_spec _ hspecL.1 els' (sp.epoch + 1) hpf hlen
+      have htree : (newLeaves els' (sp.epoch + 1)).foldl CRoot.insert1
+          (CRoot.ofLeaves (Spec.leaves c d.commitmentKey d.vrf sp.table)) =
+          CRoot.ofLeaves (Spec.leaves c d.commitmentKey d.vrf
+            ((b.filter (Pub.isChange sp.table)).foldl (Pub.step (sp.epoch + 1)) sp.table)) :=
+        wf_unique _ _ fw hspecL'.1 ((fp.trans hperm).trans hspecL'.2.symm)
+      simp only at hrun hrep'
+      rw [htree] at hrep'
+      have hlog := Pub.logOK_batchInsert hrun (Pub.logOK_begin d.nodes href.idle.2)
+      have hrepc : ReprRoot c .directory s'.commit _ :=
+        Pub.reprRoot_getRec_congr c .directory s' s'.commit (Pub.getRec_commit s' hlog) _ hrep'
+      have hroot := rootHash_of_reprRoot c .directory s'.commit _ (sp.epoch + 1) n' hrepc
+        (fun lf hlf => (hepL' lf (hspecL'.2.mem_iff.1 hlf)).2)
+      have hne : els' ≠ [] := fun h => hch (hemp.1 h)
+      have hemp' : (els'.map fun x => (NodeLabel.ofBits x.1, x.2)).isEmpty = false := by
+        cases els' with
+        | nil => exact absurd rfl hne
+        | cons _ _ => rfl
+      -- the value states
+      have hstates : ((b.filter (Pub.isChange sp.table)).map (Pub.mkState d.vrf sp.table (sp.epoch + 1))).foldl
+          Dir.setState d.states = d.states ++ (b.filter (Pub.isChange sp.table)).map
+            (Pub.mkState d.vrf sp.table (sp.epoch + 1)) := by
+        apply Pub.foldl_setState_append
+        · intro s hs w hw h
+          obtain ⟨x, _, rfl⟩ := List.mem_map.1 hw
+          obtain ⟨v, hvm, _, he, _⟩ := href.states.1 s hs
+          have := (hEp _ v hvm).2
+          have h2 := h.2
+          simp only [Pub.mkState] at h2
+          omega
+        · rw [List.pairwise_map]
+          have : (b.filter (Pub.isChange sp.table)).Pairwise (fun a b => a.1 ≠ b.1) := by
+            have := hndch
+            rwa [List.Nodup, List.pairwise_map] at this
+          exact this.imp (fun h h' => h h'.1)
+      have hsm := Pub.smatch_fold sp.table sp.epoch (b.filter (Pub.isChange sp.table)) hV hEp hndch
+        d.states d.vrf href.states (fun x hx => htot x ((List.mem_filter.1 hx).1) true _ (by omega) (Nat.le_refl _))
+      simp only [hemp', Bool.false_eq_true, if_false, href.idle.1, hrun, Dir.liftT, hroot, hstates]
+      rw [if_neg (fun h => h rfl)]
+      refine ⟨{ d with nodes := s'.commit, azks := some ⟨sp.epoch + 1, n'⟩,
+                       states := d.states ++ (b.filter (Pub.isChange sp.table)).map
+                         (Pub.mkState d.vrf sp.table (sp.epoch + 1)) }, ?_, ?_, rfl, rfl, fun h => ?_⟩
+      · rw [hsp]; rfl
+      · rw [hsp]
+        exact ⟨⟨n', rfl⟩, Pub.commit_idle s', hrepc, hsm, hvers', hkeys'⟩
+      · rw [hsp] at h
+        have := congrArg Spec.State.epoch h
+        simp at this
 
 /-- fold of publish over a history, ignoring rejected batches (the caller sees the error) -/
 def runDir (c : Cfg) (d : Dir) : List (List (Bytes × Bytes)) → Dir
@@ -66,6 +197,54 @@ def runDir (c : Cfg) (d : Dir) : List (List (Bytes × Bytes)) → Dir
   | b :: rest => match d.publish c b with
     | .ok (d', _, _) => runDir c d' rest
     | .error _ => runDir c d rest
+
+/-- what `get_epoch_hash` returns in a state that represents `sp` -/
+theorem epochHash_of_refines (c : Cfg) (d : Dir) (sp : Spec.State) (hv : C06.VrfOK d.vrf) (href : Refines c d sp) :
+    d.epochHash c = .ok (sp.epoch, Spec.rootHash c d.commitmentKey d.vrf sp) := by
+  obtain ⟨n, hazks⟩ := href.azks
+  have hV : ∀ u, Pub.VersOK (sp.table.get u) := fun u => (href.versions u).1
+  have hpfL := Pub.prefixFree_leaves hv.inj hv.len c d.commitmentKey sp.table href.keys hV
+  have hlenL := Pub.leaves_len hv.len c d.commitmentKey sp.table
+  have hepL := Pub.leaves_ep c d.commitmentKey d.vrf sp.table href.keys 1 sp.epoch (fun u => (href.versions u).2)
+  have hspecL := ofLeaves_spec _ hpfL (fun x hx h => by have := hlenL x hx; rw [h] at this; cases this)
+  have hroot := rootHash_of_reprRoot c .directory d.nodes _ sp.epoch n href.tree
+    (fun lf hlf => (hepL lf (hspecL.2.mem_iff.1 hlf)).2)
+  unfold Dir.epochHash
+  simp only [bind, Except.bind, pure, Except.pure, hazks, hroot, Dir.liftT]
+  rfl
+
+theorem runDir_refines (c : Cfg) (hc : c.emptyLabel.len = 0) (users : List Bytes) (N : Nat) :
+    ∀ (h : List (List (Bytes × Bytes))) (d : Dir) (sp : Spec.State),
+      C06.VrfOK d.vrf → VrfTotal d.vrf users N → sp.epoch + h.length + 1 ≤ N → Refines c d sp →
+      (∀ x ∈ sp.table, x.1 ∈ users) → (∀ b ∈ h, ∀ x ∈ b, x.1 ∈ users) →
+      Refines c (runDir c d h) (h.foldl Spec.applyBatch sp) ∧ (runDir c d h).vrf = d.vrf ∧
+        (runDir c d h).commitmentKey = d.commitmentKey
+  | [], d, sp, _, _, _, href, _, _ => ⟨href, rfl, rfl⟩
+  | b :: rest, d, sp, hv, ht, hN, href, hu, hb => by
+    simp only [List.length_cons] at hN
+    have hstep := publish_refines c hc d sp users N hv ht (by omega) href b
+      (hb b List.mem_cons_self) hu
+    simp only at hstep
+    have hle := Pub.applyBatch_epoch_le sp b
+    have hu' : ∀ x ∈ (Spec.applyBatch sp b).table, x.1 ∈ users := by
+      intro x hx
+      rcases Pub.applyBatch_keys sp b x hx with h | h
+      · obtain ⟨y, hy, hyx⟩ := List.mem_map.1 h
+        exact hyx ▸ hb b List.mem_cons_self y hy
+      · exact hu x h
+    have hb' : ∀ b' ∈ rest, ∀ x ∈ b', x.1 ∈ users := fun b' hb'' => hb b' (List.mem_cons_of_mem _ hb'')
+    rw [List.foldl_cons]
+    by_cases hdup : (b.map (·.1)).eraseDups.length = b.length
+    · obtain ⟨d', hpub, href', hvrf, hkey, _⟩ := hstep.2 hdup
+      have hrun : runDir c d (b :: rest) = runDir c d' rest := by
+        simp only [runDir, hpub]
+      rw [hrun, ← hvrf, ← hkey]
+      exact runDir_refines c hc users N rest d' _ (hvrf ▸ hv) (hvrf ▸ ht) (by omega) href' hu' hb'
+    · obtain ⟨⟨e, hpub⟩, hsp⟩ := hstep.1 hdup
+      have hrun : runDir c d (b :: rest) = runDir c d rest := by
+        simp only [runDir, hpub]
+      rw [hrun, hsp]
+      exact runDir_refines c hc users N rest d sp hv ht (by omega) href hu hb'
 
 /-- **every history**: epoch = number of effective publishes, root hash = canonical root over the
 specification's leaves, at the end of any sequence of batches -/
@@ -76,8 +255,20 @@ theorem history_refines (c : Cfg) (hc : c.emptyLabel.len = 0) (vrf : VrfTable) (
     ∃ d0, Dir.init c { vrf := vrf, commitmentKey := key } = .ok d0 ∧
       Refines c (runDir c d0 h) (Spec.run h) ∧
       (runDir c d0 h).epochHash c = .ok ((Spec.run h).epoch, Spec.rootHash c key vrf (Spec.run h)) := by
-  sorry
+  obtain ⟨d0, hinit, href0⟩ := init_refines c vrf key
+  have hvrf0 : d0.vrf = vrf ∧ d0.commitmentKey = key := by
+    simp only [Dir.init] at hinit
+    split at hinit
+    · injection hinit with hinit; subst hinit; exact ⟨rfl, rfl⟩
+    · cases hinit
+  obtain ⟨hr, h1, h2⟩ := runDir_refines c hc users (h.length + 2) h d0 {} (hvrf0.1 ▸ hv) (hvrf0.1 ▸ ht)
+    (by show 0 + h.length + 1 ≤ h.length + 2; omega) href0 (fun x hx => nomatch hx) hb
+  refine ⟨d0, hinit, hr, ?_⟩
+  have := epochHash_of_refines c _ _ (by rw [h1, hvrf0.1]; exact hv) hr
+  rw [h1, h2, hvrf0.1, hvrf0.2] at this
+  exact this
 
+set_option linter.unusedVariables false in
 /-- the tree of the represented state is honest for every label in the sense of C06/C07 -/
 theorem refines_honest (c : Cfg) (hc : c.Lawful) (d : Dir) (sp : Spec.State) (hv : C06.VrfOK d.vrf)
     (users : List Bytes) (N : Nat) (ht : VrfTotal d.vrf users N) (hN : sp.epoch + 1 ≤ N)
@@ -85,6 +276,83 @@ theorem refines_honest (c : Cfg) (hc : c.Lawful) (d : Dir) (sp : Spec.State) (hv
     (href : Refines c d sp) (u : Bytes) (hmem : u ∈ users) :
     C06.HonestFor c d.commitmentKey d.vrf (CRoot.ofLeaves (Spec.leaves c d.commitmentKey d.vrf sp.table)) u
       (sp.table.get u) := by
-  sorry
+  have hV : ∀ u, Pub.VersOK (sp.table.get u) := fun u => (href.versions u).1
+  have hEp : ∀ u, ∀ v ∈ sp.table.get u, 1 ≤ v.epoch ∧ v.epoch ≤ sp.epoch := fun u => (href.versions u).2
+  have hpfL := Pub.prefixFree_leaves hv.inj hv.len c d.commitmentKey sp.table href.keys hV
+  have hlenL := Pub.leaves_len hv.len c d.commitmentKey sp.table
+  have hspecL := ofLeaves_spec _ hpfL (fun x hx h => by have := hlenL x hx; rw [h] at this; cases this)
+  have hmemL : ∀ lf, lf ∈ (CRoot.ofLeaves (Spec.leaves c d.commitmentKey d.vrf sp.table)).leaves ↔
+      lf ∈ Spec.leaves c d.commitmentKey d.vrf sp.table := fun lf => hspecL.2.mem_iff
+  refine ⟨hV u, ?_, ?_, ?_, ?_⟩
+  · intro v hvm
+    have hlen := Pub.versOK_length_le (hV u) _ (hEp u)
+    have hver := Pub.versOK_version_le (hV u) hvm
+    obtain ⟨l, hl⟩ := Option.isSome_iff_exists.1 (ht u hmem true v.version hver.1 (by omega))
+    exact ⟨l, hl, (hmemL _).2 (Pub.fresh_present c d.commitmentKey sp.table u v hvm l hl)⟩
+  · intro ver l lf hl hlf hlbl
+    exact Pub.fresh_only hv.inj hv.len c d.commitmentKey sp.table href.keys u ver l lf hl ((hmemL _).1 hlf) hlbl
+  · intro ver l hver hl
+    rw [← Pub.stale_iff hv.inj hv.len c d.commitmentKey sp.table href.keys hV u ver hver l hl]
+    constructor
+    · rintro ⟨lf, h1, h2⟩; exact ⟨lf, (hmemL _).1 h1, h2⟩
+    · rintro ⟨lf, h1, h2⟩; exact ⟨lf, (hmemL _).2 h1, h2⟩
+  · intro ver l lf _ hl hlf hlbl
+    exact Pub.stale_stamp hv.inj hv.len c d.commitmentKey sp.table href.keys u ver l lf hl ((hmemL _).1 hlf) hlbl
+
+/-! ### non-vacuity: a concrete oracle table and history satisfying every hypothesis -/
+
+def exU : Bytes := [1]
+def exLab (b : UInt8) : NodeLabel := ⟨Vector.replicate 32 b, 256⟩
+def exVrf : VrfTable :=
+  [(⟨exU, true, 1⟩, exLab 1), (⟨exU, false, 1⟩, exLab 2), (⟨exU, true, 2⟩, exLab 3), (⟨exU, false, 2⟩, exLab 4),
+   (⟨exU, true, 3⟩, exLab 5), (⟨exU, false, 3⟩, exLab 6), (⟨exU, true, 4⟩, exLab 7), (⟨exU, false, 4⟩, exLab 8)]
+
+theorem exLab_inj (a b : UInt8) (h : exLab a = exLab b) : a = b := by
+  have := congrArg (fun l => l.val[0]) h
+  simpa [exLab] using this
+
+theorem exVrf_mem (k : VrfClaim) (l : NodeLabel) (h : exVrf.get? k = some l) : (k, l) ∈ exVrf := by
+  have : ∀ (t : VrfTable), t.get? k = some l → (k, l) ∈ t := by
+    intro t
+    induction t with
+    | nil => intro h; cases h
+    | cons x xs ih =>
+      obtain ⟨k', l'⟩ := x
+      intro h
+      simp only [VrfTable.get?] at h
+      split at h
+      · rename_i hk; cases h; rw [hk]; exact List.mem_cons_self
+      · exact List.mem_cons_of_mem _ (ih h)
+  exact this _ h
+
+theorem exVrf_ok : C06.VrfOK exVrf := by
+  constructor
+  · intro k k' l h1 h2
+    have m1 := exVrf_mem k l h1
+    have m2 := exVrf_mem k' l h2
+    simp only [exVrf, List.mem_cons, Prod.mk.injEq, List.not_mem_nil, or_false] at m1 m2
+    rcases m1 with ⟨rfl, rfl⟩ | ⟨rfl, rfl⟩ | ⟨rfl, rfl⟩ | ⟨rfl, rfl⟩ | ⟨rfl, rfl⟩ | ⟨rfl, rfl⟩ | ⟨rfl, rfl⟩ | ⟨rfl, rfl⟩ <;>
+    rcases m2 with ⟨rfl, h⟩ | ⟨rfl, h⟩ | ⟨rfl, h⟩ | ⟨rfl, h⟩ | ⟨rfl, h⟩ | ⟨rfl, h⟩ | ⟨rfl, h⟩ | ⟨rfl, h⟩ <;>
+    first | rfl | (exact absurd (exLab_inj _ _ h) (by decide))
+  · intro k l h
+    have m1 := exVrf_mem k l h
+    simp only [exVrf, List.mem_cons, Prod.mk.injEq, List.not_mem_nil, or_false] at m1
+    rcases m1 with ⟨_, rfl⟩ | ⟨_, rfl⟩ | ⟨_, rfl⟩ | ⟨_, rfl⟩ | ⟨_, rfl⟩ | ⟨_, rfl⟩ | ⟨_, rfl⟩ | ⟨_, rfl⟩ <;> rfl
+
+theorem exVrf_total : VrfTotal exVrf [exU] 4 := by
+  intro u hu f v h1 h2
+  simp only [List.mem_singleton] at hu
+  subst hu
+  have : v = 1 ∨ v = 2 ∨ v = 3 ∨ v = 4 := by omega
+  rcases this with rfl | rfl | rfl | rfl <;> cases f <;> decide
+
+/-- non-vacuity: the hypotheses of `history_refines` hold for a two-batch history of one label -/
+example (c : Cfg) (hc : c.emptyLabel.len = 0) (key : Dig) :
+    ∃ d0, Dir.init c { vrf := exVrf, commitmentKey := key } = .ok d0 ∧
+      Refines c (runDir c d0 [[(exU, [9])], [(exU, [8])]]) (Spec.run [[(exU, [9])], [(exU, [8])]]) ∧
+      (Spec.run [[(exU, [9])], [(exU, [8])]]).epoch = 2 :=
+  let ⟨d0, h1, h2, _⟩ := history_refines c hc exVrf key [exU] [[(exU, [9])], [(exU, [8])]] exVrf_ok exVrf_total
+    (by simp)
+  ⟨d0, h1, h2, by decide⟩
 
 end Akd.C01
